@@ -33,3 +33,7 @@ pub mod parking_lot {
 
     pub use kanata_verif_rt::parking_lot::{Mutex, MutexGuard};
 }
+
+/// Probe: number of times zippychord's 10000-tick contingency reset changed its state.
+pub static ZCH_EFFECTIVE_FORCED_RESETS: ::core::sync::atomic::AtomicU64 =
+    ::core::sync::atomic::AtomicU64::new(0);
